@@ -32,14 +32,35 @@ Open Scope N_scope.
 // (hb n [w1; w2; ...]) = n bytes packed big-endian, seven per primitive-integer literal
 func hx(b []byte) string {
 	const chunk = 4900 // keeps the nat numeral small
+	const minRun = 2000
 	if len(b) > chunk {
+		// long runs of one byte (nesting bombs, padded block data) are written as (rep n byte)
 		var parts []string
-		for i := 0; i < len(b); i += chunk {
-			j := i + chunk
-			if j > len(b) {
-				j = len(b)
+		flush := func(seg []byte) {
+			for i := 0; i < len(seg); i += chunk {
+				j := i + chunk
+				if j > len(seg) {
+					j = len(seg)
+				}
+				parts = append(parts, hx(seg[i:j]))
 			}
-			parts = append(parts, hx(b[i:j]))
+		}
+		start := 0
+		for i := 0; i < len(b); {
+			j := i
+			for j < len(b) && b[j] == b[i] {
+				j++
+			}
+			if j-i >= minRun {
+				flush(b[start:i])
+				parts = append(parts, fmt.Sprintf("(rep %d %d)", j-i, b[i]))
+				start = j
+			}
+			i = j
+		}
+		flush(b[start:])
+		if len(parts) == 1 {
+			return parts[0]
 		}
 		return "(" + strings.Join(parts, " ++ ") + ")"
 	}
@@ -64,9 +85,22 @@ func hx(b []byte) string {
 func coqZ(z int64) string { return fmt.Sprintf("(%d)%%Z", z) }
 
 // renderer collects oddities met while rendering what Go handed back (never expected)
-type renderer struct{ odd []string }
+type renderer struct {
+	odd   []string
+	depth int
+}
 
 func (rd *renderer) node(n datamodel.Node) string {
+	// the strict decoder never hands back more than 1024 levels; a deeper node is reported, not rendered
+	// (a term nested that deep would also overflow Coq's parser)
+	rd.depth++
+	defer func() { rd.depth-- }()
+	if rd.depth > 1100 {
+		if rd.depth == 1101 {
+			rd.odd = append(rd.odd, "node nested deeper than the decoder's depth limit")
+		}
+		return "NNull"
+	}
 	switch n.Kind() {
 	case datamodel.Kind_Null:
 		return "NNull"
@@ -256,4 +290,14 @@ func (o *oracle) addMsg(m message.GraphSyncMessage) {
 
 func (o *oracle) term() string { return cw.List(o.ents) }
 
-func oddKey(odd []string) string { return strings.Join(odd, "; ") }
+func oddKey(odd []string) string {
+	seen := map[string]bool{}
+	var out []string
+	for _, o := range odd {
+		if !seen[o] {
+			seen[o] = true
+			out = append(out, o)
+		}
+	}
+	return strings.Join(out, "; ")
+}
